@@ -18,14 +18,15 @@ import (
 // C06 (H): membership / health histories interleaved with connection arrivals on the real TCP processor.
 //
 // hosts     a, b main; c backup (each a virtual backend recording what it accepts)
-// alphabet  add h | remove h | replace-all {a} / {b,c} | mark h unhealthy | mark h healthy | a late health result
+// alphabet  add h | remove h (also announced with the other type) | replace-all {a} / {b,c} / {a,b,c} (fresh objects) | mark h unhealthy | mark h healthy | a late health result
 //           for the host object a had at the start (stale once a was removed or re-added) | client connects |
 //           oldest client disconnects ; policy round robin | random | least connection (every random outcome)
 //           membership changes use fresh host objects that only carry the address, as the controller does
 // bound     depth (quick 3, thorough 4)
 // oracle    every connection is relayed to a member that is marked healthy in the preferred tier at selection
 //           time (backup only when no main host is healthy); with no usable host the client connection is
-//           closed; when a host is removed every established connection to it is closed on both sides
+//           closed; when a host is removed every established connection to it is closed on both sides; a connection
+//           relayed to a usable member is not closed by the proxy
 // ---------------------------------------------------------------------------
 
 var c06addrs = map[string]string{"a": "10.2.0.1:80", "b": "10.2.0.2:80", "c": "10.2.0.3:80"}
@@ -136,7 +137,7 @@ func c06histBody(depth int) func() {
 		policy := []service.LoadBalancePolicy{service.LoadBalancePolicy_ROUND_ROBIN, service.LoadBalancePolicy_RANDOM, service.LoadBalancePolicy_LEAST_CONNECTION}[sched.Choose(sched.ClsInput, 3, "policy")]
 		w := c06setup(policy, []string{"a", "b", "c"})
 		var hist []string
-		ops := []string{"add a", "add b", "add c", "remove a", "remove b", "remove c", "replace {a}", "replace {b,c}", "remove a,b", "remove b,a", "unhealthy a", "unhealthy b", "unhealthy c", "healthy a", "healthy b", "connect", "disconnect", "late-unhealthy a", "late-healthy a"}
+		ops := []string{"add a", "add b", "add c", "remove a", "remove b", "remove c", "remove-as-other-type a", "replace {a}", "replace {b,c}", "replace {a,b,c}", "remove a,b", "remove b,a", "unhealthy a", "unhealthy b", "unhealthy c", "healthy a", "healthy b", "connect", "disconnect", "late-unhealthy a", "late-healthy a"}
 		// the host object a health check started on at the beginning; its late results must not count once the
 		// address was removed or re-added as a fresh object
 		origA := w.stored("a")
@@ -150,6 +151,15 @@ func c06histBody(depth int) func() {
 					w.p.OnSvcHostAdd([]*host.Host{host.NewWithType(c06addrs[f[1]], c06types[f[1]])})
 					w.members[f[1]], w.healthy[f[1]] = true, true
 				}
+			case "remove-as-other-type":
+				// the registry announces the removal with a descriptor whose type differs from the stored host's
+				other := host.TypeBackup
+				if c06types[f[1]] == host.TypeBackup {
+					other = host.TypeMain
+				}
+				w.p.OnSvcHostRemove([]*host.Host{host.NewWithType(c06addrs[f[1]], other)})
+				delete(w.members, f[1])
+				delete(w.healthy, f[1])
 			case "remove":
 				var hs []*host.Host
 				for _, n := range strings.Split(f[1], ",") {
@@ -207,6 +217,9 @@ func c06histBody(depth int) func() {
 						if u == c.backend {
 							ok = true
 						}
+					}
+					if ok && (c.client.Peer().IsClosed() || c.bconn.Peer().IsClosed()) {
+						sched.Fail("connection-to-usable-host-closed-at-once", fmt.Sprintf("%s history %v: relayed to %s, which is a usable member, but the proxy closed the connection right away (downstream closed=%v upstream closed=%v)", policy, hist, c.backend, c.client.Peer().IsClosed(), c.bconn.Peer().IsClosed()))
 					}
 					if !ok {
 						why := "connection-relayed-to-unusable-host"
